@@ -174,6 +174,7 @@ HANDMADE = [
     "group:2 group:2 pu:2(indexes=group:group)", "group3:2 group:2 pu:2(indexes=group3)", "Tile:2 Module:2 pu:1", "Tilexx:2 pu:1", "pu\xe0:2", "core\xe0:1 pu:1",
     "pack:2 pu\xe0", "l2cache\xe0:1 pu:1", "group\xe0:1 pu:1", "pack:2 [numa(indexes=1,0)] pu:2", "pack:2 [numa(indexes=pack)] pu:2", "pack:2 [numa] [numa] pu:2",
     "pack:2\npu:2\n", "pack:2(unknown) pu:2", "pack:2(a b c) pu:2", "pack:2( ) pu:2", "pack:2() pu:2", "pack:2)( pu:2", "pack:2(indexes=)", "pu:1(indexes=)", "pu:1(indexes=0)",
+    "pack:2(indexes=core) core:2 pu:1", "pu:2(indexes=1*65536:1*65536:1*65536:1*65536)", "group:2 [numa(indexes=pack)] socket:2 pu:1", "pu:8(indexes=1* 2:2*2:4*2)",
     "numa:2(indexes=1,0) pu:1", "numa:2 core:2 pu:1", "pack:2 numa:2 pu:1", "pack:1 numa:1 core:1 pu:1", "core:1 pack:1 pu:2", "l1:1 l2:1 pu:2",
 ]
 
